@@ -657,3 +657,27 @@ func post_AddRange_others(s *Subscribers, from Subscribers) bool {
 		return vs.Has(from, k) || (vs.Has(m, k) == specHadKey(s, k) && (!vs.Has(m, k) || m[k] == specOldAt(s, k)))
 	})
 }
+
+// ---------------------------------------------------------------------------------------------------------
+// Frame.Limit (C06, C07: "the most recent `limit` messages ... ordered by non-decreasing time"): the frame is
+// sorted by message time (sort.Slice is outside the verified code: a recorded call on THIS frame) and then cut to
+// its LAST n elements - a view of the sorted frame, nothing copied, nothing reordered afterwards; a frame of at
+// most n elements is kept whole; a negative n keeps nothing.
+//@ assume (Frame).Sort iface for=Limit
+//@ verify (*Frame).Limit as=functional pre=pre_Frame_Limit post=post_Frame_Limit props=C06,C07
+//@ assume (Frame).Sort iface for=functional
+func post_Frame_Limit(f *Frame, n int, old_f Frame) bool {
+	s := vs.TraceFind("Frame).Sort")
+	if s != 0 || vs.TraceLen() != 1 {
+		return false
+	}
+	keep := n
+	if keep < 0 {
+		keep = 0
+	}
+	size := len(old_f)
+	if size <= keep {
+		return len(*f) == size && (size == 0 || vs.OffsetOf(*f, old_f) == 0)
+	}
+	return len(*f) == keep && (keep == 0 || vs.OffsetOf(*f, old_f) == size-keep)
+}
